@@ -80,7 +80,7 @@ pub fn meta(prop: &str) -> Meta {
                 "clock (discrete-event; tokio paused clock in async runs)",
                 "std::sync Mutex/Condvar/RwLock/mpsc and std::thread in the hooked modules",
                 "TCP sockets and listeners (simulated byte pipes with capacity, delay, FIN/RST, short I/O)",
-                "blocking pool (spawn_blocking redirected to simulated threads)",
+                "blocking pool (spawn_blocking redirected to simulated threads; optional pool-size limit with FIFO queueing)",
                 "available_parallelism, HashMap hasher",
             ],
             assumptions: &[
